@@ -6,17 +6,18 @@ import numpy as np
 from translators import t2_pointwise
 from core.ctx import REPO
 from . import _c03_expr as X
+from . import _c04_aux as AUX
 from .c03 import quiet, close, embed_cols, err_site, names_meta
 
 ID = "C04"
 LEAN_MODULES = ["NiftyVerif.Core.Proto", "NiftyVerif.Model.Expr", "NiftyVerif.Model.ExprIO", "NiftyVerif.Model.PartialEval",
-                "NiftyVerif.Props.C04", "NiftyVerif.Props.C04Metric"]
+                "NiftyVerif.Props.C04", "NiftyVerif.Props.C04Metric", "NiftyVerif.Props.C04Ham"]
 DRIVER = "Driver/C04.lean"
 TRANSLATORS = [t2_pointwise.translate]
 OBLIGATIONS = ["NiftyVerif.C04." + t for t in (
     "eval_congr", "lin_congr_env", "jac_congr", "pe_target", "pe_sound", "pe_jac", "jac_zero",
     "partialVar_grad_zero", "partialVar_eq_pe", "energyAdapter_constants", "adj_support", "pe_adj", "metric_congr",
-    "metric_support", "pe_metric_partial")]
+    "metric_support", "pe_metric_partial", "hamiltonian_pe_offset_partial")]
 RULE = ("generated multi-domain operator/energy trees (as C03, >= 2 input keys) x EVERY non-empty proper subset of the "
         "operator's input keys as constants; per (tree, subset): real simplify_for_constant_input vs original with the "
         "constants inserted (value, dense Jacobian, adjoint, metric), EnergyAdapter(constants=...), make_partial_var, "
@@ -106,6 +107,8 @@ def real_case(case):
 
 def oracle(case):
     """the property on the REAL code only"""
+    if "aux" in case:
+        return AUX.oracle(case)
     r = real_case(case)
     sig = {"site": "simplify_for_constant_input"}
     if "error" in r:
@@ -218,6 +221,13 @@ def compare(ctx, case, r, m):
 
 
 def shrink(case):
+    if "aux" in case:
+        if case["n"] > 1:
+            m = case["n"] - 1
+            yield dict(case, n=m, r=case["r"][:m], i=case["i"][:m], d=case["d"][:m])
+        if case.get("wm"):
+            yield dict(case, wm=False)
+        return
     S = case.get("S", [])
     if len(S) > 1:
         for k in S:
@@ -259,9 +269,18 @@ def gen_cases(ctx, n):
 def run(ctx):
     import glob, json, os
     from core.ctx import VERIF
-    cases = []
+    cases, aux = [], []
     for pth in sorted(glob.glob(os.path.join(VERIF, "corpus", ID, "*.json"))):
-        cases.append(json.load(open(pth))["case"])
+        c = json.load(open(pth))["case"]
+        (aux if "aux" in c else cases).append(c)
+    # per-class rules outside the Lean model (VariableCovarianceGaussianEnergy, StandardHamiltonian): oracle on the real code
+    aux += AUX.gen(ctx.rng, ctx.n(60, 600))
+    for c in aux:
+        ctx.stat("aux:" + c["aux"])
+        ctx.case(c, nontrivial=True)
+        res = AUX.oracle(c)
+        if res:
+            ctx.counterexample(c, *res)
     cases += gen_cases(ctx, ctx.n(160, 1000))
     reals, reqs = [], []
     for c in cases:
